@@ -1,6 +1,7 @@
 /-
 Driver commands for the graph family (C04 / C21):
   gr.grid <numblocks>                     block-index grid in `__dask_keys__` order
+  gr.walk <names> <deps> <roots>          nodes emitted by `_walk_records` with a shared `seen`
   gr.istopo <deps per key> <order>        is `order` a topological order of the graph skeleton
   gr.materialize <renamed> <inner> <nb>   tail of `_materialize` (RootAlias pin / embedded-root guard)
   gr.flatten <key> <node>                 `_records(key, node)` of dask_array/_frisky/graph_records.py
@@ -133,6 +134,15 @@ def handle (cmd : String) (args : List String) : Option String :=
     let order ← parseNatList? order
     let sk := (List.range deps.length).zip deps
     pure (if isTopoB sk order then "ok 1" else "ok 0")
+  | "gr.walk", [names, deps, roots] => do
+    -- nodes are numbered; `names[i]` is the name id of node i, `deps[i]` its dependencies
+    let names ← parseNatList? names
+    let deps ← parseNatLL? deps
+    let roots ← parseNatList? roots
+    match walkAll (fun i => names.getD i 0) (fun i => deps.getD i []) (4 * (names.length + 1) * (names.length + 1))
+        roots [] [] with
+    | none => pure "err fuel"
+    | some (_, out) => pure ("ok " ++ fmtNatList (out.map (fun i => names.getD i 0)))
   | "gr.materialize", [renamed, inner, nb] => do
     let nb ← parseNatList? nb
     let (pre, root) := matNodes (inner = "1") nb
